@@ -180,7 +180,7 @@ def _name(r, field=False):
 
 
 def gen_cases(rng, tier):
-    n = {"quick": 110, "thorough": 2400, "search": 500}[tier]
+    n = {"quick": 300, "thorough": 2400, "search": 500}[tier]
     cases = []
     r = rng.fork("hist")
     for _ in range(n):
@@ -467,8 +467,8 @@ def _check_visible(where, st, visible, written):
     if len(got) != len(st["tables"]):
         return f"{where}: duplicate table names in sqlite_master"
     for t in visible:
-        if t not in got:
-            return f"{where}: no table named {t!r} although its creation was committed (tables: {sorted(got)})"
+        if t not in got and visible[t] > 0:
+            return f"{where}: no table named {t!r} although {visible[t]} of its records were committed (tables: {sorted(got)})"
     for t, (nm, cols, rows) in got.items():
         if t not in visible:
             return f"{where}: table {t!r} is visible but no record type of that name was committed"
@@ -509,7 +509,11 @@ def _oracle_run(case, run):
 
     for k, (op, st) in enumerate(zip(case["ops"], run["steps"])):
         where = f"batch_size={b} call #{k} ({op[0]})"
-        alt = None   # a second admissible visible state (only for refused writes: committing first is optional)
+        # admissible visible states after this call, most specific first. Committing when a record type (name +
+        # fields) is seen for the first time is what the adapter does, but the property does not demand it: both
+        # "committed before the insert" and "not committed" are accepted there; flush / close / every batch_size-th
+        # record MUST commit.
+        cands = [visible]
         if op[0] == "w":
             if not opened:
                 if st["outcome"] == "ok":
@@ -531,14 +535,10 @@ def _oracle_run(case, run):
                         return f"{where}: {st['outcome']} for values SQLite can store: {st.get('msg')}"
                 if key not in seen:
                     seen.add(key)
-                    if refused:
-                        alt = dict(everything())
-                        alt.setdefault(name, 0)
-                    else:
-                        if name not in written:
-                            written[name] = []
-                            order.append(name)
-                        visible = everything()
+                    if name not in written:
+                        written[name] = []
+                        order.append(name)
+                    cands = [everything(), visible]          # committed before the insert, or not
                 if not refused:
                     exp = list(st["expect"])
                     for i, (fn, ft) in enumerate(st["desc"][1]):
@@ -549,28 +549,28 @@ def _oracle_run(case, run):
                     written[name].append(([fn for fn, _ in st["desc"][1]], exp))
                     count += 1
                     if count % b == 0:
-                        visible = everything()
+                        cands = [everything()]
         elif op[0] == "f":
             if st["outcome"] != "ok":
                 return f"{where}: flush raised {st['outcome']}"
             if opened:
-                visible = everything()
+                cands = [everything()]
         else:
             if st["outcome"] != "ok":
                 return f"{where}: close raised {st['outcome']}"
             if opened:
-                visible = everything()
+                cands = [everything()]
             opened = False
-        f = _check_visible(where, st, visible, written)
-        if f and alt is not None:
-            for t in alt:
-                written.setdefault(t, [])
-                if t not in order:
-                    order.append(t)
-            if _check_visible(where, st, alt, written) is None:
-                visible, f = alt, None
-        if f:
-            return f
+        fails = []
+        for cand in cands:
+            # a table without committed rows may or may not exist yet
+            f = _check_visible(where, st, cand, written)
+            if f is None:
+                visible = cand
+                break
+            fails.append(f)
+        else:
+            return fails[0]
     # ---- after the history: a closed writer has everything committed
     if not opened:
         last = {t[0]: t for t in run["steps"][-1]["tables"]} if run["steps"] else {}
